@@ -7,6 +7,7 @@ import (
 	"encoding/binary"
 	"fmt"
 	"math"
+	"strings"
 	"sync"
 	"sync/atomic"
 	"time"
@@ -372,6 +373,14 @@ func c11Run(r *ev.Run, st *Stack, g *rng.R, caseID string, cfg c11Cfg, prop stri
 		w.mu.Unlock()
 		pmu.Unlock()
 		if judged > 0 && judgePrompt {
+			// what are the goroutines the parked calls wait for doing? (diagnosis only)
+			var others []string
+			for _, gg := range gor.Snapshot() {
+				if (gg.Has("github.com/quic-go/quic-go") || gg.Has("golang.org/x/crypto/ssh.") || len(gg.LibFrames()) > 0) && !gg.Has("main.c11asker") && len(others) < 40 {
+					others = append(others, gg.Text)
+				}
+			}
+			r.Extra["c11_other_goroutines_"+st.Name] = strings.Join(others, "\n\n")
 			w.viol("ask-blocked-after-context-ended", fmt.Sprintf("%d Ask calls whose context has ended (and for which no handler invocation ever began) are parked inside the library", judged), map[string]any{"stacks": stacks})
 		} else {
 			r.Inconclusive("c11 askers still waiting (live context or running handler) on " + st.Name)
